@@ -15,6 +15,21 @@ claimed = {
 }
 
 PENDING_REASON = "not claimed at this commit: the simulation check for this property (DESIGN.md section 3) is still under construction; it is intended to be claimed, not declared inapplicable"
+claimed["C18"] = dict(
+    level="fault_enumeration",
+    text="Per corpus file the fault space (offset k x fault family x operation) is enumerated: completely for every file <= 64 KiB in the thorough tier, at every write-call and table boundary (+-1) plus sampled interior offsets otherwise. Families: writer fails at k (five acceptance modes incl. short writes and a transient failure), file cut at k, reader fails from k on (ReaderAt with both EOF conventions, streaming reader with short reads), reader fails in a bounded window. What is sampled is the corpus (Go fonts, CFF conversions, 36 generated fonts).",
+    design="3 C18",
+    note="Trusted: simio fault-injecting writer/readers, the harness's own directory walk (end of table data), the font comparer. A bounded-window read fault followed by success is accepted iff the returned font equals the fault-free one.",
+    technique="deterministic fault injection at enumerated byte offsets of simulated writers/readers (crash images, failing devices), oracles on returned (n, err) and on the simulated disk",
+)
+claimed["C03"] = dict(
+    level="exploration",
+    text="Storage-simulation invariant: after every acknowledged write (header.Write of generated table maps; Write / WriteTrueTypePDF / WriteOpenTypeCFFPDF of generated fonts) the simulated disk is checked by an independent container walk (fsck written from the OpenType specification), read back through header.Read/ReadTableBytes, and the write is repeated under several controlled map-iteration orders (the only nondeterminism in the writer). Complete fonts are additionally handed to golang.org/x/image/font/sfnt (incidental oracle). See the scope caveat in DESIGN.md section 3 C03.",
+    design="3 C03",
+    note="Trusted: harness/simgen/fsck.go (container walk), x/image/font/sfnt as independent parser for glyph count, unitsPerEm, cmap, advances and glyph names (files it declines are counted, not judged). Outline agreement with the independent parser is not checked.",
+    technique="deterministic simulation: generated writes onto a simulated disk under controlled map-iteration order, fsck invariant after every acknowledged write",
+)
+
 pending = {k: PENDING_REASON for k in ["C01", "C02", "C03", "C07", "C15", "C16", "C18", "C19", "C20"] if k not in claimed}
 
 not_applicable = {
